@@ -904,9 +904,16 @@ func (te *TemplateEngine) cloneDocument(source *Document) *Document {
 	doc.stylesRelID = source.stylesRelID
 	doc.stylesGenerated = source.stylesGenerated
 	if source.stylesBaseline != nil {
-		doc.stylesBaseline = make(map[string]bool, len(source.stylesBaseline))
-		for id := range source.stylesBaseline {
-			doc.stylesBaseline[id] = true
+		doc.stylesBaseline = make(map[string]string, len(source.stylesBaseline))
+		for id, snapshot := range source.stylesBaseline {
+			// 未修改的样式以克隆后的定义为基准（克隆可能不完全等价），已修改的样式保留原基准
+			if source.styleManager != nil && doc.styleManager != nil {
+				st, cloned := source.styleManager.GetStyle(id), doc.styleManager.GetStyle(id)
+				if st != nil && cloned != nil && snapshot == styleSnapshot(st) {
+					snapshot = styleSnapshot(cloned)
+				}
+			}
+			doc.stylesBaseline[id] = snapshot
 		}
 	}
 
